@@ -56,11 +56,20 @@ Definition obs_err_sim (c : eclass) (t : string) (p : path) (f : perr) : bool :=
   (match c with EClient => true | _ => String.eqb t (e_text (pe_err f)) end) &&
   path_sim p (pe_path f).
 
+(** No field of the schema is run as a batch (every other mode - plain, Expensive, the fallback of a
+    batch field, NumParallelInvocations - is allowed): then an error is located exactly (theorem
+    failing_resolver_fails_query_exact), and the observation is held to that. *)
+Definition no_batch_fields (S : schema) : bool :=
+  forallb (fun o => forallb (fun f => negb (should_use_batch f)) (o_fields o)) (s_objects S).
+
+Definition obs_err_exact (c : eclass) (t : string) (p : path) (f : perr) : bool :=
+  obs_err_sim c t p f && path_eqb p (pe_path f).
+
 (** Does the observation agree with the reference semantics [r]? *)
-Definition obs_matches_ref (r : eres) (o : obs) : bool :=
+Definition obs_matches_ref (exact : bool) (r : eres) (o : obs) : bool :=
   match o, snd r with
   | OJson j, [] => json_eqb (norm (fst r)) j
-  | OErr c t p, (_ :: _) as fs => existsb (obs_err_sim c t p) fs
+  | OErr c t p, (_ :: _) as fs => existsb (if exact then obs_err_exact c t p else obs_err_sim c t p) fs
   | _, _ => false
   end.
 
@@ -87,7 +96,7 @@ Definition check_run (c : gcase) (r : grun) : list nat :=
                      | inl st => finish FUEL (run_fifo fixed sch FUEL 4000 (run_sched fixed sch FUEL (r_sched r) st))
                      end in
             (if obs_matches_run ref m (r_obs r) then [] else [1]) ++
-            (if obs_matches_ref ref (r_obs r) then [] else [2])
+            (if obs_matches_ref (no_batch_fields sch) ref (r_obs r) then [] else [2])
       end
   | _, _ => [3]
   end.
